@@ -604,6 +604,12 @@ def pseudo_keyword_cases():
 NUMERIC_POSTFIX = [b"1 .x", b"1 .x.y", b"(1).x", b"1.5 .x", b"0x1F .x", b"1 [0]", b"1e5 .x", b"-1 .x", b"a + 1 .x", b"f(1 .x)", b".5 .x"]
 
 
+def probe_cases():
+    """seed-independent inputs that are NOT all sentences of the reference grammar (many are rejected): they probe the oracles that
+    apply to whatever is accepted (round trip, positions, traversal ...), never the acceptance property C08"""
+    return literal_systematic() + pseudo_keyword_cases() + [("ParseExpr", x) for x in NUMERIC_POSTFIX]
+
+
 def systematic_cases(valid_only=True):
     """seed-independent pairwise enumeration of optional clauses (every pair of column options x every key clause, ...);
     valid_only: leave out combinations Spanner forbids (two key definitions) - they are still inputs for the error-contract checks"""
@@ -630,9 +636,6 @@ def systematic_cases(valid_only=True):
             out.append(("ParseDDL", ("CREATE TABLE t (a INT64%s)%s" % (o, k)).encode()))
             out.append(("ParseDDL", ("ALTER TABLE t ADD COLUMN a INT64%s" % o).encode()))
     out += query_systematic()
-    out += literal_systematic()
-    out += pseudo_keyword_cases()
-    out += [("ParseExpr", x) for x in NUMERIC_POSTFIX]
     # tables without columns (only constraints / synonyms), and without anything
     for body in ("", "SYNONYM (s)", "CONSTRAINT c CHECK (TRUE)", "CHECK (TRUE), SYNONYM (s)", "FOREIGN KEY (a) REFERENCES u (b), SYNONYM (s1), SYNONYM (s2)",
                  "CONSTRAINT fk FOREIGN KEY (a) REFERENCES u (b)"):
